@@ -75,10 +75,10 @@ def _run(exe, arg, env=None, timeout=60):
 _counter = [0]
 
 
-def _do_batch(workdir, units, extra, env, results):
+def _do_batch(workdir, units, extra, env, results, prelude=""):
     _counter[0] += 1
     name = f"b{_counter[0]}"
-    text = "".join(mod + "\n" + drv + "\n" for _, mod, drv in units)
+    text = prelude + "".join(mod + "\n" + drv + "\n" for _, mod, drv in units)
     text += gen_fortran.main_program([uid for uid, _, _ in units])
     okc, exe, msgs = _compile(workdir, name, text, extra)
     if not okc:
@@ -86,8 +86,8 @@ def _do_batch(workdir, units, extra, env, results):
             results[units[0][0]] = Result(False, messages=msgs)
             return
         mid = len(units) // 2
-        _do_batch(workdir, units[:mid], extra, env, results)
-        _do_batch(workdir, units[mid:], extra, env, results)
+        _do_batch(workdir, units[:mid], extra, env, results, prelude)
+        _do_batch(workdir, units[mid:], extra, env, results, prelude)
         return
     for num, (uid, _, _) in enumerate(units):
         rcode, out, err = _run(exe, num, env=env)
@@ -98,7 +98,8 @@ def _do_batch(workdir, units, extra, env, results):
         pass
 
 
-def run_units(units, extra_flags=(), env=None, workdir=None, batch=BATCH):
+def run_units(units, extra_flags=(), env=None, workdir=None, batch=BATCH,
+              prelude=""):
     """units: list of (uid, module_text, driver_sub_text). uids must be
     unique and be the ones used inside the texts (m<uid>, drv<uid>)."""
     results = {}
@@ -109,7 +110,7 @@ def run_units(units, extra_flags=(), env=None, workdir=None, batch=BATCH):
     try:
         for start in range(0, len(units), batch):
             _do_batch(workdir, units[start:start + batch], extra_flags, env,
-                      results)
+                      results, prelude)
     finally:
         if own:
             shutil.rmtree(own, ignore_errors=True)
